@@ -225,6 +225,32 @@ def main_met():
                 chk.violation("get_step(%d) = %s, the specification says %s" % (i, got, want), sc, klass=dict(klass_met(m), check="step"))
                 break
     ZERO_TOKENS.clear()
+    # LONG series (the specification's lists have up to four entries; the code has no length-dependent branch - an
+    # implementation might): every field a list of n entries, mixed with scalars, n up to 1500
+    nlong = 0
+    for n_, scalars in ((300, ()), (1500, ("mol",)), (257, ("ustar", "wind_dir")), (1000, ("wind_speed", "mol", "ustar"))):
+        kwl = {f: (7.5 + 0.001 * hash(f) % 3 if f in scalars else [BASE[f] + 0.37 * j + 0.001 * k for j in range(n_)]) for k, f in enumerate(FIELDS)}
+        kwl["timestamps"] = ["t%05d" % j for j in range(n_)]
+        mcl = MetConfig(**kwl)
+        nlong += 1
+        sc = {"kind": "long_series", "n": n_, "scalars": list(scalars)}
+        chk.case(("long", n_, scalars))
+        try:
+            mcl.validate()
+            cfgl = parse_config_dict({"domain": dict(BASE_DOMAIN), "towers": [dict(TOWERS[0])], "met": copy.deepcopy(kwl)})
+        except Exception as ex:
+            chk.violation("a valid series of %d steps is rejected: %r" % (n_, ex), sc, klass={"check": "long_series"})
+            continue
+        if mcl.n_timesteps != n_ or cfgl.met.n_timesteps != n_:
+            chk.violation("a series of %d entries reports %d / %d steps" % (n_, mcl.n_timesteps, cfgl.met.n_timesteps), sc, klass={"check": "long_series"})
+            continue
+        for i in (0, 1, n_ // 2, 255, 256, n_ - 2, n_ - 1):
+            st = mcl.get_step(i)
+            want = {f: (kwl[f] if f in scalars else kwl[f][i]) for f in FIELDS}
+            if any(st[f] != want[f] for f in FIELDS) or st["timestamp"] != kwl["timestamps"][i]:
+                chk.violation("step %d of a series of %d: get_step returns %s, the entries are %s" % (i, n_, {f: st[f] for f in FIELDS}, want), sc, klass={"check": "long_series"})
+                break
+    chk.extra["long_series"] = nlong
     # drivers: the timeseries driver and the CLI loop iterate exactly NSteps times with the right parameters
     from bldfm import run_bldfm_timeseries
 
@@ -506,8 +532,10 @@ def main_single():
         nsup += o["src"] == "supplied"
         raw = build_raw(o, m, square=(o["src"] == "supplied" and nsup % 2 == 1))
         cfg = parse_config_dict(copy.deepcopy(raw))
+        cfg_before = copy.deepcopy(cfg)
         tower = cfg.towers[o["tower"] - 1]
         supplied = rng.uniform(-1, 2, size=(raw["domain"]["ny"], raw["domain"]["nx"])) if o["src"] == "supplied" else None
+        supplied_before = None if supplied is None else supplied.copy()
         # YAML and dictionary parse to the same configuration
         yp = os.path.join(d, "c.yaml")
         with open(yp, "w") as f:
@@ -565,6 +593,10 @@ def main_single():
                 if bad:
                     chk.violation("after a run for tower %d, the run for tower %d of the same step differs from the explicit pipeline in %s" % (o["tower"], other, bad),
                                   dict(sc, second_tower=other), klass={"check": "result_second_tower", "fields": ",".join(bad)})
+        # a run reads its configuration and its flux: neither may be changed by it (the next run would see the change)
+        if cfg != cfg_before or (supplied is not None and not np.array_equal(supplied, supplied_before)):
+            chk.violation("run_bldfm_single modifies %s it is given" % ("the configuration" if cfg != cfg_before else "the surface-flux array"),
+                          {"kind": "single", "o": o, "m": m, "raw": raw}, klass={"check": "inputs_modified"})
     defaults_scenarios(chk)
     chk.extra["lattice_points_replayed"] = len(r.emitted)
     for e in r.emitted[:3]:
